@@ -217,6 +217,19 @@ def awaiterNoTouchAfterPublish (tbl : List PlainAccess) : Bool :=
 
 theorem c03_awaiter_no_touch_after_publish : awaiterNoTouchAfterPublish Generated.plainAccesses = true := by decide
 
+/-- positions of the rows of one function with the given base object ("" = this) and field -/
+def positionsOf (tbl : List PlainAccess) (cls fn base field : String) (wr : Bool) : List Nat :=
+  (tbl.filter (fun a => a.cls == cls && a.fn == fn && !a.inAssert && a.base == base && a.field == field && a.write == wr)).map (·.pos)
+
+def anyBefore (xs ys : List Nat) : Bool := xs.any (fun x => ys.all (fun y => x < y))
+
+/-- `shared_future`'s resolve tracer takes its keep-alive reference (`this->_ptr = ptr`) BEFORE it publishes itself by subscribing
+(afterwards the resolver's callback writes the same non-atomic `shared_ptr` from another thread) -/
+theorem c03_tracer_ref_before_publish :
+    anyBefore (positionsOf Generated.plainAccesses "resolve_cb" "charge" "" "_ptr" true)
+              (positions Generated.plainAccesses "resolve_cb" "charge" ["call:subscribe"]) = true
+    ∧ (positions Generated.plainAccesses "resolve_cb" "charge" ["call:subscribe"]).length = 1 := by decide
+
 /-- the walker reads and clears a node's `_next` before it resumes that node (after which the node may be gone) -/
 theorem c03_walk_reads_next_before_resume :
     allBefore (positions Generated.plainAccesses "awaiter" "resume_chain_lk" ["_next"])
